@@ -48,7 +48,7 @@ def check(ctx):
     ctx.rule = ("cells: triclinic P1/P-1, monoclinic P/C, orthorhombic C, hexagonal, rhombohedral, cubic primitive/centred, n_lp in {1,2,4}, shuffled atoms; operations: spglib, "
                 "explicit full group in shuffled order (identity first, and with a rotation first), proper subgroup; every operation applied to expanded basis vectors (all, up to a cap) and to fits. Non-trivial: group order >= 2")
     cells = [("mono_P", (1, 1, 1)), ("tri2_Pm1", (1, 1, 1)), ("hcp", (1, 1, 1)), ("bcc_conv", (1, 1, 1)), ("ortho_C", (1, 1, 1)), ("tri1", (2, 2, 1)), ("rhombo2", (1, 1, 1)), ("nacl_prim", (1, 1, 1)), ("mono_C", (1, 1, 1)),
-             ("tri1", (3, 1, 1)), ("mono_P", (1, 3, 1)), ("p4_general", (1, 1, 1))]   # lattice translations of order 3 (T != T^-1)
+             ("tri1", (3, 1, 1)), ("mono_P", (1, 3, 1)), ("p4_general", (1, 1, 1)), ("p3_general", (1, 1, 1))]   # lattice translations of order 3 (T != T^-1)
     if not ctx.quick:
         cells += [("si_prim", (1, 1, 1)), ("fcc_conv", (1, 1, 1)), ("wurtzite", (1, 1, 1)), ("tet_bc", (1, 1, 1)), ("hex1", (2, 1, 1)), ("tri1", (2, 2, 2)), ("sc1", (2, 1, 1)), ("cscl", (1, 1, 1))]
     import spglib
